@@ -142,7 +142,9 @@ def history(kind, k):
                 x = cl[cn]
                 if x not in reg:
                     continue
-                router.process_message(EnableBLOB(device=n, value=p), sender=x)
+                # the optional name attribute must make no difference (the setting is per device)
+                nm = "IMG" if d.bool("named") else None
+                router.process_message(EnableBLOB(device=n, value=p, name=nm), sender=x)
                 pol[(x, n)] = p
         for x in cl.values():
             x.got.clear()
@@ -180,10 +182,10 @@ def reregister(kind):
         router.register_client(c1)
         n0 = d.choice(("A", "B"), "policy-device")
         p0 = d.choice(("Never", "Also", "Only"), "policy")
-        router.process_message(EnableBLOB(device=n0, value=p0), sender=c0)
+        router.process_message(EnableBLOB(device=n0, value=p0, name=("IMG" if d.bool("named") else None)), sender=c0)
         p1 = d.choice(POLICIES, "bystander-policy")
         if p1 is not None:
-            router.process_message(EnableBLOB(device="A", value=p1), sender=c1)
+            router.process_message(EnableBLOB(device="A", value=p1, name=("IMG" if d.bool("named-too") else None)), sender=c1)
         router.unregister_client(c0)
         if d.bool("traffic-while-away"):
             router.process_message(make_message(kind, "A"), sender=dev)
@@ -251,7 +253,6 @@ def handshake(which):
 def conditions(tier):
     out = []
     thorough = tier == "thorough"
-    k = 3 if thorough else 2
     for kind in KINDS:
         out.append(Condition(f"step/{kind}", make_condition(step(kind, thorough), 0, 6, 1),
                              about=f"{kind} routed in an arbitrary policy state", encodes=ENC,
@@ -259,11 +260,12 @@ def conditions(tier):
     hk = KINDS if thorough else ["SetBLOBVector", "SetTextVector", "DefBLOBVector", "DelProperty", "Message", "GetProperties",
                                  "DefSwitchVector", "SetNumberVector"]
     for kind in hk:
-        out.append(Condition(f"history{k}/{kind}", make_condition(history(kind, k), 0, k + 1, 0),
+        k = 3 if (thorough and kind in ("SetBLOBVector", "SetTextVector")) else 2
+        out.append(Condition(f"history{k}/{kind}", make_condition(history(kind, k), 0, k + 1, k),
                              about=f"{k} symbolic operations (enableBLOB / unregister / re-register) from the initial state, then {kind}",
                              encodes=ENC, bounds=f"{k} operations out of {len(ops_for(k))}", timeout=900))
     for kind in ("SetBLOBVector", "SetTextVector"):
-        out.append(Condition(f"reregister/{kind}", make_condition(reregister(kind), 0, 5, 1),
+        out.append(Condition(f"reregister/{kind}", make_condition(reregister(kind), 0, 5, 3),
                              about=f"enableBLOB, unregister, register again, then {kind}: defaults apply", encodes=ENC, timeout=600))
     for which in ("BaseClient", "Client"):
         out.append(Condition(f"handshake/{which}", make_condition(handshake(which), 0, 3, 0),
